@@ -265,13 +265,15 @@ class scrypt(  # type: ignore[misc]
     def to_string(self):
         ident = self.ident
         if ident == IDENT_SCRYPT:
-            return "$scrypt$ln=%d,r=%d,p=%d$%s$%s" % (
+            hash = "$scrypt$ln=%d,r=%d,p=%d$%s" % (
                 self.rounds,
                 self.block_size,
                 self.parallelism,
                 bascii_to_str(b64s_encode(self.salt)),
-                bascii_to_str(b64s_encode(self.checksum)),
             )
+            if self.checksum:
+                hash = f"{hash}${bascii_to_str(b64s_encode(self.checksum))}"
+            return hash
         assert ident == IDENT_7
         salt = self.salt
         try:
@@ -288,9 +290,8 @@ class scrypt(  # type: ignore[misc]
                     h64.encode_int30(self.block_size),
                     h64.encode_int30(self.parallelism),
                     self.salt,
-                    b"$",
-                    h64.encode_bytes(self.checksum),
                 ]
+                + ([b"$", h64.encode_bytes(self.checksum)] if self.checksum else [])
             )
         )
 
